@@ -21,7 +21,7 @@ ID = "C13"
 LEVEL = "exploration"
 RULE = (
     "history = byte stream (clean HDLC in C02's domain / clean P1 / corrupted frames / noise-prefixed / mixed / one pre-selection call of more than 8 KiB with the selecting message late) x splitting into data_received() calls "
-    "x candidate list ([HDLC cfg], [P1], [HDLC,P1], [P1,HDLC]) x protocol class (payload, message). oracle: queue contents == model(selection rule over shadow readers); "
+    "x candidate list ([HDLC cfg], [P1], [HDLC,P1], [P1,HDLC], two HDLC readers with opposite stuffing settings in both orders) x protocol class (payload, message). oracle: queue contents == model(selection rule over shadow readers); "
     "clean streams: queue == non-empty payloads of the sent messages; long-lived protocol objects (12 000 / 60 000 messages after a selection in which an earlier candidate returned an invalid message): every payload arrives. evaluations = histories executed; distinct non-trivial = distinct (class, candidates, stream, splitting) "
     "digests in which a reader was selected (>= 1 item reached the queue or the model expected one)."
 )
@@ -50,13 +50,18 @@ def plan(tier: str, seed: int) -> list[dict]:
     return shards
 
 
-CAND_KINDS = ("H", "P", "HP", "PH")
+CAND_KINDS = ("H", "P", "HP", "PH", "Hh", "hH")  # h = HDLC reader with the opposite stuffing setting
 
 
 def make_candidates(kind: str, cfg):
     out = []
     for ch in kind:
-        out.append(hdlc_mon.new_reader(cfg) if ch == "H" else p1_mon.new_reader())
+        if ch == "H":
+            out.append(hdlc_mon.new_reader(cfg))
+        elif ch == "h":
+            out.append(hdlc_mon.new_reader((not cfg[0], cfg[1])))
+        else:
+            out.append(p1_mon.new_reader())
     return out
 
 
@@ -163,7 +168,9 @@ def make_case(rng):
         stream, sent = c02mod.make_stream(rng, cfg)
         clean = [d["info"] for _f, d in sent if d["info"]]
         kind = "clean_hdlc"
-        cand = rng.choice(("H", "HP", "PH"))
+        cand = rng.choice(("H", "HP", "PH", "Hh", "hH"))
+        if cand in ("Hh", "hH"):
+            clean = None  # which of the two HDLC readers is selected depends on the content: only the model is consulted
     elif r < 0.55:
         ids = p1_gen.IdSource(rng)
         sent = [p1_gen.strict_readout(rng, ids, rng.choice((0, 1, 3, 10)), checksum=rng.choice(("correct", None))) for _ in range(rng.randint(1, 8))]
@@ -210,8 +217,14 @@ def make_case(rng):
         parts = []
         for _ in range(rng.randint(2, 6)):
             if rng.random() < 0.5:
-                ro = p1_gen.strict_readout(rng, None, rng.choice((0, 2, 5)))
-                if rng.random() < 0.5:
+                ro = p1_gen.strict_readout(rng, None, rng.choice((1, 2, 5)))
+                if rng.random() < 0.2:
+                    # a data byte 0x80 (the one non-ASCII value the validity check lets through), checksum recomputed or absent
+                    bb = bytearray(p1_gen.with_checksum_text(ro, b""))
+                    lf = bb.find(b"\n")
+                    bb[rng.randrange(lf + 1, bb.rfind(b"!"))] = 0x80
+                    ro = bytes(bb) if rng.random() < 0.5 else p1_gen.with_checksum_text(bytes(bb), b"%04X" % p1_gen.correct_checksum(bytes(bb)))
+                elif rng.random() < 0.5:
                     ro = p1_gen.with_checksum_text(ro, rng.choice((b"0000", b"FFFF", b"12G4", b"")))
                 parts.append(ro)
             else:
